@@ -26,7 +26,7 @@ type evalCtx struct {
 	env   map[string]Term
 	cur   *State
 	old   *State
-	names func(name string) (Term, bool)
+	names func(ev *evalCtx, name string) (Term, bool)
 	bound map[string]Term
 }
 
@@ -313,7 +313,7 @@ func (ev *evalCtx) ident(name string) Term {
 		return t
 	}
 	if ev.names != nil {
-		if t, ok := ev.names(name); ok {
+		if t, ok := ev.names(ev, name); ok {
 			return t
 		}
 	}
@@ -351,6 +351,10 @@ func (ev *evalCtx) ident(name string) Term {
 			return Term{ev.tr.get(ev.cur, "G:"+name, s), s, nil}
 		}
 		ev.fail("call-record ghost %q is not known here", name)
+	}
+	if strings.HasPrefix(name, "recvlog_") {
+		s := "(Array Ref (Array Int " + name[len("recvlog_"):] + "))"
+		return Term{ev.tr.get(ev.cur, "G:"+name, s), s, nil}
 	}
 	if strings.HasPrefix(name, "sentlog_") {
 		s := "(Array Ref (Array Int " + name[len("sentlog_"):] + "))"
